@@ -6,7 +6,7 @@ SECTIONS = ["ops"]
 LEAN_MODULES = ["QExPy.Props.C05", "QExPy.Props.C03"]
 THEOREMS = ["QExPy.World.C05_recalc_fresh", "QExPy.World.C05_recalc_redraws",
             "QExPy.World.C05_deriv_current", "QExPy.World.C05_read_stable",
-            "QExPy.World.C05_sim_kept", "QExPy.World.read_settles", "QExPy.C03_diff_correct"]
+            "QExPy.World.C05_sim_kept", "QExPy.World.C05_memo_kept", "QExPy.World.read_settles", "QExPy.C03_diff_correct"]
 RULE = ("seeded histories (5-40 ops) over formulas assembled through real intermediate results "
         "(2-4 measurements, 1-5 operators, reuse of intermediates): set value / uncertainty / "
         "correlation (function and method form), reset correlations, read, derivative(), "
